@@ -62,7 +62,7 @@ def main():
     import collections
     waves = collections.OrderedDict()
     for s_ in seeds:
-        mm = re.match(r"s\d\d([a-f]?)_", s_["id"])
+        mm = re.match(r"s\d\d([a-g]?)_", s_["id"])
         w = (mm.group(1) if mm else "") or "a"
         meta = {}
         mp = os.path.join(HERE, "seeded", s_["id"], "meta.json")
@@ -77,7 +77,8 @@ def main():
             "miss was followed by a generalised strengthening, after which all seeds are caught):", "",
             "| round | seeds | caught at first run by the target check | instruction to the sub-agents |", "|---|---|---|---|"]
     how = {"a": "property text only", "b": "property text + 'not the mechanism of round a'", "c": "+ suggested mechanism areas (mine) to diversify",
-           "d": "+ suggested mechanism areas", "e": "+ suggested mechanism areas", "f": "property text + list of the five used mechanisms, free choice otherwise"}
+           "d": "+ suggested mechanism areas", "e": "+ suggested mechanism areas", "f": "property text + list of the five used mechanisms, free choice otherwise",
+           "g": "property text + list of the six used mechanisms, free choice otherwise (15 properties)"}
     for w, (n_, k_) in waves.items():
         out.append(f"| {w} | {n_} | {k_} | {how.get(w, '')} |")
     out += ["", END]
